@@ -21,6 +21,9 @@ pub struct Cnt {
     pub dropped: AtomicUsize,
     pub detached: AtomicUsize,
     pub peak: AtomicUsize,
+    /// get() calls entered / left (monotone), for the race-proof bound on status().waiting
+    pub entered: AtomicUsize,
+    pub left: AtomicUsize,
 }
 
 pub struct LObj(Arc<Cnt>);
@@ -69,13 +72,14 @@ fn spin(n: u64) {
 /// Managed pool: getters at full speed while one thread resizes (C07) or closes (C06).
 pub fn managed_race(prop: &'static str, seed: u64, close: bool) -> RaceOut {
     let mut rng = Rng::derive(seed, 0x7ace, close as u64);
+    let small = cfg!(miri) || std::env::var_os("VERIF_RACE_SMALL").is_some();
     let dense = rng.chance(1, 2);
-    let threads = if dense { rng.range(12, 40) as usize } else { rng.range(3, 12) as usize };
-    let iters = rng.range(200, 1500) as usize;
+    let threads = if small { 3 } else if dense { rng.range(12, 40) as usize } else { rng.range(3, 12) as usize };
+    let iters = if small { rng.range(3, 8) as usize } else { rng.range(200, 1500) as usize };
     let start_max = rng.range(1, 4) as usize;
-    let resizes: Vec<usize> = (0..rng.range(4, 40)).map(|_| rng.usize_below(6)).collect();
+    let resizes: Vec<usize> = (0..rng.range(4, if cfg!(miri) { 6 } else { 40 })).map(|_| rng.usize_below(6)).collect();
     let final_max = *resizes.last().unwrap();
-    let delay = rng.below(if dense { 40_000 } else { 3000 });
+    let delay = if small { rng.below(30) } else { rng.below(if dense { 40_000 } else { 3000 }) };
     let cnt = Arc::new(Cnt::default());
     let pool: Pool<LMgr> = Pool::builder(LMgr(cnt.clone())).max_size(start_max).build().unwrap();
     let stop = Arc::new(AtomicBool::new(false));
@@ -83,14 +87,17 @@ pub fn managed_race(prop: &'static str, seed: u64, close: bool) -> RaceOut {
     let mut hs = Vec::new();
     let mut viol: Vec<Violation> = Vec::new();
     for t in 0..threads {
-        let (pool, stop, gets) = (pool.clone(), stop.clone(), gets.clone());
+        let (pool, stop, gets, cnt2) = (pool.clone(), stop.clone(), gets.clone(), cnt.clone());
         hs.push(std::thread::spawn(move || -> Result<(), String> {
             let mut held = Vec::new();
             for i in 0..iters {
                 if stop.load(Ordering::Relaxed) && i % 8 == 0 {
                     break;
                 }
-                match std::panic::catch_unwind(std::panic::AssertUnwindSafe(|| poll_once(pool.timeout_get(&NB)))) {
+                let _ = cnt2.entered.fetch_add(1, Ordering::SeqCst);
+                let r = std::panic::catch_unwind(std::panic::AssertUnwindSafe(|| poll_once(pool.timeout_get(&NB))));
+                let _ = cnt2.left.fetch_add(1, Ordering::SeqCst);
+                match r {
                     Ok(Some(Ok(o))) => {
                         let _ = gets.fetch_add(1, Ordering::Relaxed);
                         if !dense && (i + t) % 5 == 0 {
@@ -109,6 +116,39 @@ pub fn managed_race(prop: &'static str, seed: u64, close: bool) -> RaceOut {
             Ok(())
         }));
     }
+    // C11: a sampler thread checks the plausibility clauses with race-proof bounds: counters that can
+    // only raise the bound are read after status(), counters that can only lower it before
+    let sampler = {
+        let (pool, stop, cnt2) = (pool.clone(), stop.clone(), cnt.clone());
+        std::thread::spawn(move || -> (u64, Option<String>) {
+            let mut n = 0u64;
+            loop {
+                let dropped_before = cnt2.dropped.load(Ordering::SeqCst);
+                let left_before = cnt2.left.load(Ordering::SeqCst);
+                let st = pool.status();
+                let created_after = cnt2.created.load(Ordering::SeqCst);
+                let entered_after = cnt2.entered.load(Ordering::SeqCst);
+                n += 1;
+                let big = 1usize << 32;
+                if st.size >= big || st.available >= big || st.waiting >= big || st.max_size >= big {
+                    return (n, Some(format!("status() reports a wrapped counter: {:?}", st)));
+                }
+                if st.available > st.size {
+                    return (n, Some(format!("available > size: {:?}", st)));
+                }
+                if st.size > created_after - dropped_before.min(created_after) {
+                    return (n, Some(format!("size {} but at most {} objects can exist (created {} afterwards, {} dropped before)", st.size, created_after - dropped_before, created_after, dropped_before)));
+                }
+                if st.waiting > entered_after - left_before.min(entered_after) {
+                    return (n, Some(format!("waiting {} but at most {} callers can be inside get()", st.waiting, entered_after - left_before)));
+                }
+                if stop.load(Ordering::SeqCst) {
+                    return (n, None);
+                }
+                std::thread::yield_now();
+            }
+        })
+    };
     spin(delay);
     if close {
         pool.close();
@@ -125,6 +165,17 @@ pub fn managed_race(prop: &'static str, seed: u64, close: bool) -> RaceOut {
             Ok(Err(e)) => viol.push(Violation { prop, oracle: "race_call_failed", msg: e }),
             Err(_) => viol.push(Violation { prop, oracle: "race_thread_died", msg: "a worker thread died".into() }),
         }
+    }
+    let mut samples = 0;
+    match sampler.join() {
+        Ok((n, None)) => samples = n,
+        Ok((n, Some(msg))) => {
+            samples = n;
+            if prop == "C11" {
+                viol.push(Violation { prop, oracle: "status_implausible", msg });
+            }
+        }
+        Err(_) => viol.push(Violation { prop, oracle: "race_thread_died", msg: "the status sampler died".into() }),
     }
     // ---- at rest
     let st = pool.status();
@@ -186,7 +237,7 @@ pub fn managed_race(prop: &'static str, seed: u64, close: bool) -> RaceOut {
     }
     let g = gets.load(Ordering::SeqCst) as u64;
     let desc = format!("managed race close={} threads={} iters={} start_max={} resizes={:?} gets_ok={} created={}", close, threads, iters, start_max, resizes, g, c);
-    RaceOut { violations: viol, hash: vh_common::fnv1a(desc.as_bytes()), desc: Json::obj().with("engine", "th_race").with("profile_prop", prop).with("seed", seed).with("case", desc), events: g + c as u64 + 2 }
+    RaceOut { violations: viol, hash: vh_common::fnv1a(desc.as_bytes()), desc: Json::obj().with("engine", "th_race").with("profile_prop", prop).with("seed", seed).with("case", desc), events: g + c as u64 + 2 + samples }
 }
 
 // ------------------------------------------------------------------ unmanaged
@@ -207,11 +258,12 @@ pub fn unmanaged_race(prop: &'static str, seed: u64, close: bool) -> RaceOut {
     let mut rng = Rng::derive(seed, 0x7acf, close as u64);
     // half of the rounds are "return-heavy": many threads doing nothing but get + return on a full pool
     let dense = rng.chance(1, 2);
-    let threads = if dense { rng.range(16, 64) as usize } else { rng.range(3, 24) as usize };
-    let iters = rng.range(200, 1500) as usize;
-    let max = rng.range(1, 8) as usize;
+    let small = cfg!(miri) || std::env::var_os("VERIF_RACE_SMALL").is_some();
+    let threads = if small { 3 } else if dense { rng.range(16, 64) as usize } else { rng.range(3, 24) as usize };
+    let iters = if small { rng.range(3, 9) as usize } else { rng.range(200, 1500) as usize };
+    let max = rng.range(1, if small { 3 } else { 8 }) as usize;
     let prefill = if dense { max } else { rng.usize_below(max + 1) };
-    let delay = rng.below(if dense { 60_000 } else { 4000 });
+    let delay = if small { rng.below(30) } else { rng.below(if dense { 60_000 } else { 4000 }) };
     let cnt = Arc::new(UCnt { dropped: AtomicUsize::new(0) });
     let pool: UPool<UL> = UPool::new(max);
     let made = Arc::new(AtomicUsize::new(0));
